@@ -443,7 +443,11 @@ fn drd_spec() -> Spec<DrdB> {
   fields.push(field("participant_key", &[0x0050], vals!(T, |t: &mut T| t.participant_key = Some(pg()))));
   fields.push(field("content_filter", &[0x0035], vals!(T,
     |t: &mut T| t.filter = Some(ContentFilterProperty { content_filtered_topic_name: "cft".into(), related_topic_name: "topic_t".into(), filter_class_name: "DDSSQL".into(), filter_expression: "x > %0".into(), expression_parameters: vec!["5".into()] }),
-    |t: &mut T| t.filter = Some(ContentFilterProperty { content_filtered_topic_name: "c".into(), related_topic_name: "to".into(), filter_class_name: "abc".into(), filter_expression: "five5".into(), expression_parameters: vec![] }))));
+    |t: &mut T| t.filter = Some(ContentFilterProperty { content_filtered_topic_name: "c".into(), related_topic_name: "to".into(), filter_class_name: "abc".into(), filter_expression: "five5".into(), expression_parameters: vec![] }),
+    // three and more parameters whose lengths (with the terminating NUL) are not all multiples of 4: the padding
+    // before each one depends on the one before only
+    |t: &mut T| t.filter = Some(ContentFilterProperty { content_filtered_topic_name: "cft".into(), related_topic_name: "topic_t".into(), filter_class_name: "DDSSQL".into(), filter_expression: "a > %0 and b < %1 and c = %2".into(), expression_parameters: vec!["1".into(), "22".into(), "333".into()] }),
+    |t: &mut T| t.filter = Some(ContentFilterProperty { content_filtered_topic_name: "cft".into(), related_topic_name: "topic_t".into(), filter_class_name: "DDSSQL".into(), filter_expression: "%0 %1 %2 %3 %4".into(), expression_parameters: vec!["10".into(), "200".into(), "5".into(), "12345".into(), "".into()] }))));
   Spec {
     tname: "DiscoveredReaderData",
     base: Box::new(|| DrdB { slots: QosPolicyBuilderSlots::default(), proxy: ReaderProxy::new(GUID::new_with_prefix_and_id(pg().prefix, reader_eid(7)), false, vec![], vec![]), filter: None, rpc: (None, None, None), participant_key: None }),
